@@ -140,6 +140,10 @@ func (ex *Executor) matchRow(st *State, fr *Frame, r *Row, evs []*Event) (*Term,
 		if pat == nil || (pat.Kind == "ident" && pat.Name == "_") {
 			return nil
 		}
+		if pat.Kind == "ident" && strings.HasPrefix(pat.Name, "bind_") {
+			bind(strings.TrimPrefix(pat.Name, "bind_"), Val{T: ch})
+			return nil
+		}
 		pv, err := ex.evalSpec(pat, env)
 		if err != nil {
 			return err
@@ -182,7 +186,9 @@ func (ex *Executor) matchRow(st *State, fr *Frame, r *Row, evs []*Event) (*Term,
 			if err := chanEq(p.Chan, e.Chan); err != nil {
 				return nil, false, err
 			}
-			if err := eqArg(p.Args[0], e.Val); err != nil {
+			if a := p.Args[0]; a.Kind == "ident" && strings.HasPrefix(a.Name, "bind_") {
+				bind(strings.TrimPrefix(a.Name, "bind_"), e.Val)
+			} else if err := eqArg(a, e.Val); err != nil {
 				return nil, false, err
 			}
 		case "close":
